@@ -76,6 +76,8 @@ def case_term(c):
         m = SMODE[mode] if mode != -1 else "SRaw"
         ss = "[" + ";".join(bl(s) for s in c.get("strs", [])) + "]"
         return "(check_string %s %s %s %s %s)" % (d, cc, m, ss, real)
+    if k == "record":
+        return None     # direct oracle only
     if k == "frame":
         return "(check_frame %s %s %d %s %s)" % (d, cc, c["typ"], bl(c.get("payload", "")), real)
     raise ValueError("kind %r" % k)
@@ -120,6 +122,8 @@ def sig_wal_header(c):
 def nontrivial(c):
     """a case is non-trivial when the implementation produced a block in a compressed / structured mode (not the
     uncompressed fall-back, not an empty block) or when a frame had at least 5 prefixes tried"""
+    if c["k"] == "record":
+        return c.get("typ", 0) > 0
     if c["k"] == "frame":
         return c.get("npref", 0) >= 5
     if c["k"] == "bool":
@@ -302,7 +306,7 @@ def main(ck):
         sk = "%s/%s" % (c["k"], c.get("shape"))
         shapes[sk] = shapes.get(sk, 0) + 1
         if nontrivial(c):
-            seen.add(json.dumps([c["k"], c.get("vals"), c.get("strs"), c.get("algo"), c.get("typ"), c.get("payload")]))
+            seen.add(json.dumps([c["k"], c.get("vals"), c.get("strs"), c.get("algo"), c.get("typ"), c.get("payload"), c.get("shape")]))
     ck.cov["evaluations"] = len(cases)
     ck.cov["distinct_nontrivial"] = len(seen)
     ck.cov["traces_validated_against_impl"] = sum(1 for i, c in enumerate(cases) if codes[i] is not None) - len(mism)
